@@ -7,8 +7,9 @@ import (
 	"path/filepath"
 )
 
-// emitCorpus writes the fixed regression inputs of C05 (replay format) into dir: the witnesses of
-// the refuted theorems of coq/props/C05.v and the two defects that were repaired in /repo.
+// emitCorpus writes the fixed regression inputs of C05 (replay format) into dir: the former
+// witnesses of the findings C05-c..h (c, d, e, f, g are repaired: the cases must now pass; h is still
+// a known finding) and the regression inputs of the repairs C05-a/b and of seeded change C05-1.
 func emitCorpus(dir string) {
 	os.MkdirAll(dir, 0o755)
 	full := [][2]uint64{{9000, 9100}, {30000, 30100}}
@@ -36,25 +37,25 @@ func emitCorpus(dir string) {
 		es = append(es, entry{file, "round", simIn{Mode: "round", Tree: root, Agents: agents}})
 	}
 
-	// C05-c: a static port and the first dynamic port coincide (witness of C05_ports_distinct_refuted)
+	// C05-c: a static port and the first dynamic port coincide (repaired; Placement_proofs.w1_run)
 	{
 		cl := direct
 		cl.Expr, cl.Intended = str("9000"), [][2]uint64{{9000, 9000}}
 		cl.Bind = []chn{{Name: "c1", Tcp: true}}
 		round("01_static_meets_dynamic.json", &node{Name: "root", Children: []*node{leaf("t0", nil, cl)}}, agent("h1", full, 1000, nil))
 	}
-	// C05-d: two tasks wanting 0.6 cpu each on a 1.0 cpu offer (witness of C05_request_within_offer_refuted)
+	// C05-d: two tasks wanting 0.6 cpu each on a 1.0 cpu offer (repaired; w2_run)
 	{
 		cl := direct
 		cl.Cpu = 600
 		round("02_cpu_sum_exceeds_offer.json", &node{Name: "root", Children: []*node{leaf("t0", nil, cl), leaf("t1", nil, cl)}},
 			agent("h1", full, 1000, nil))
 	}
-	// C05-g: no port >= 30000 in the offer: Ranges.Min panics in the offer goroutine (C05_round_crash_witness)
+	// C05-g: no port >= 30000 in the offer: Ranges.Min panics in the offer goroutine (repaired; w3_run)
 	round("03_no_control_port_crash.json", &node{Name: "root", Children: []*node{leaf("t0", nil, direct)}},
 		agent("h1", [][2]uint64{{9000, 9100}}, 1000, nil))
 	// C05-f: the only port goes to the dynamic port; the offer is neither used nor declined
-	// (witness of C05_unused_declined_refuted)
+	// (repaired; w4_run)
 	{
 		cl := direct
 		cl.Bind = []chn{{Name: "c1", Tcp: true}}
@@ -62,7 +63,7 @@ func emitCorpus(dir string) {
 			agent("h1", [][2]uint64{{9000, 9000}}, 1000, nil))
 	}
 	// C05-e: the top-level role names zone twice; the task role's nearer zone=z3 is lost
-	// (witness of C05_merge_nearest_refuted)
+	// (repaired; w5_run)
 	round("05_top_level_duplicate_attribute.json",
 		&node{Name: "root", Cts: []cst{{A: "zone", V: "z1"}, {A: "zone", V: "z2"}},
 			Children: []*node{leaf("t0", []cst{{A: "zone", V: "z3"}}, direct)}},
